@@ -115,10 +115,9 @@ func c13RoundTrip(msg *hsms.DataMessage, opts []EncoderOption) {
 // option combination.
 func VerifC13_ASCII() {
 	vsymExpect("round-trip")
+	// 0..2 bytes in both tiers (3 symbolic bytes ran past 20 minutes even with joint configurations);
+	// the thorough tier widens the option and header products instead
 	max := 2
-	if vsymTier() == 1 {
-		max = 3
-	}
 	n := vsymChoose(max + 1)
 	b := vsymBytes(n)
 	for _, c := range b {
